@@ -674,6 +674,17 @@ class Evaluator(abc.ABC):
         """
         resultsList = []
 
+        # The number of objectives is given by the first objective that is not a failure (a failure
+        # string does not tell how many objectives the run-function returns)
+        if self.num_objective is None:
+            for job in self.jobs_done:
+                if isinstance(job.objective, (tuple, list)):
+                    self.num_objective = len(job.objective)
+                    break
+                elif not isinstance(job.objective, str):
+                    self.num_objective = 1
+                    break
+
         for job in self.jobs_done:
             result = copy.deepcopy(job.args)
 
@@ -687,16 +698,10 @@ class Evaluator(abc.ABC):
             if isinstance(result["objective"], tuple) or isinstance(result["objective"], list):
                 obj = result.pop("objective")
 
-                if self.num_objective is None:
-                    self.num_objective = len(obj)
-
                 for i, objval in enumerate(obj):
                     result[f"objective_{i}"] = objval
             else:
-                if self.num_objective is None:
-                    self.num_objective = 1
-
-                if self.num_objective > 1:
+                if self.num_objective is not None and self.num_objective > 1:
                     obj = result.pop("objective")
                     for i in range(self.num_objective):
                         result[f"objective_{i}"] = obj
